@@ -6,14 +6,12 @@ import (
 	"bytes"
 	"encoding/binary"
 	"fmt"
-	"os"
 	"runtime"
 	"runtime/debug"
 	"runtime/metrics"
 	"strings"
 	"sync"
 	"sync/atomic"
-	"time"
 
 	"github.com/gotd/td/bin"
 	"github.com/gotd/td/internal/verif/kit"
@@ -123,13 +121,7 @@ func eval(w W) kit.Result {
 		runtime.GC()
 	})
 	a0 := heapAllocated()
-	t0 := time.Now()
 	r := evalCase(w)
-	if d := time.Since(t0); d > 20*time.Millisecond && os.Getenv("C17_SLOWLOG") != "" {
-		f, _ := os.OpenFile(os.Getenv("C17_SLOWLOG"), os.O_APPEND|os.O_CREATE|os.O_WRONLY, 0o644)
-		fmt.Fprintf(f, "%v %+v\n", d, w)
-		f.Close()
-	}
 	sinceGC += heapAllocated() - a0
 	evalsNoGC++
 	if sinceGC > 8<<20 || evalsNoGC > 2000 {
